@@ -123,9 +123,22 @@ def sweep(tier, seed):
                                       'expected': 'successes + failures = number of results carrying the requested labels, per combination'})
         if len(fails) >= 8:
             break
+    # reserved label names used as ordinary labels must not disturb the classification by verdict
+    for extra in ({'_result': 'whatever'}, {'_result': 0}, {'_result': 1}, {'_test_name': 'n'}, {'_result': TestOutcome.SUCCESS}, {'_result': TestOutcome.FAILURE}):
+        for ok1, ok2 in itertools.product((True, False), repeat=2):
+            n += 1
+            rs = [Tst('t0', ok1, dict({'x': 'x0'}, **extra)).evaluate(), Tst('t1', ok2, {'x': 'x0'}).evaluate()]
+            try:
+                bl = TestStatsTestsByLabels(name='b', task_results=[('task0', {'result': rs})], by_labels=('x',)).evaluate()
+            except Exception as e:     # noqa
+                fails.append({'input': {'reserved_label': repr(extra), 'verdicts': [ok1, ok2]}, 'observed': f'raised {e!r}', 'expected': 'a summary'})
+                continue
+            want = [{'labels': ('x0',), 'OK': int(ok1) + int(ok2), 'KO': 2 - int(ok1) - int(ok2), 'total': 2}]
+            if bl.classify != want or bool(bl) != (ok1 and ok2):
+                fails.append({'input': {'reserved_label': repr(extra), 'verdicts': [ok1, ok2]}, 'observed': f'{bl.classify}, bool = {bool(bl)}', 'expected': repr(want)})
     return {'name': 'diagnostic-statistics-native', 'evaluations': n, 'distinct': n, 'failures': fails[:8], 'exhaustive': True,
             'bound': f'all task-status lists of length <= {nmax}; all lists of <= {2 if tier == "quick" else 3} test results with verdict in {{T, F}} and labels x, y in '
-                     '{absent, 0, 1}, split over 1 or 2 tasks, with / without a task lacking results; label selections (x), (y), (x, y), (y, x)',
+                     '{absent, 0, 1}, split over 1 or 2 tasks, with / without a task lacking results; label selections (x), (y), (x, y), (y, x); results carrying the reserved label names _result / _test_name',
             'samples': [{'results': [[True, {'x': 'x0'}], [False, {'x': 'x0', 'y': 'y1'}]], 'by_labels': ['x']}]}
 
 
